@@ -205,6 +205,8 @@ def depth_of(node):
 
 def shape_labels(c):
     """labels computed from the abstract case only"""
+    if "tree" not in c:
+        return []
     u = py_unique_paths(c["tree"])
     lens = {len(p) for p in u}
     labels = []
@@ -233,6 +235,8 @@ def shape_labels(c):
 
 
 def reserved_names(c):
+    if "tree" not in c:
+        return []
     return [p[0] for p in py_unique_paths(c["tree"]) if len(p) == 1 and p[0] in NOT_KWARGS]
 
 
@@ -249,8 +253,9 @@ def failure_classes(c, route, part, msg):
     # positional error vectors read against a model re-created from model.json: only the vectors
     if "creation-order-differs" in labels and route in ("summary_agg", "scrape_summary") and part == "vectors":
         out.append("recreated-order:summary_agg")
-    # second save after a commit: only "the first samples are still returned"
-    if c.get("kind") == "dbseq" and part == "stale-first":
+    # second save of the SAMPLES rows after a commit: only "the first samples are still returned" (never the json rows,
+    # never an update sequence without a commit in between)
+    if c.get("kind") == "dbseq" and part == "stale-first" and route == "db" and any(c.get("commits") or [True]):
         out.append("db-resave-after-commit")
     return out
 
@@ -279,13 +284,29 @@ def gen_cases(ctx):
             k = first_argmax([unhex(x["ll"]) for x in c["rows"]])
             c["rows"][k]["p"][rng.randrange(npri)] = hx(rng.choice([0.0, -0.0]))
         cases.append(c)
-    for _ in range(6 if not thorough else 40):
+    for _ in range(10 if not thorough else 50):
         tree, npri = g.tree()
         rows = gen_rows(rng, npri, thorough)
         while len(rows) < 2:
             rows = gen_rows(rng, npri, thorough)
-        cases.append({"kind": "dbseq", "tree": tree, "npri": npri, "rows": rows,
-                      "first": rng.randint(1, len(rows) - 1), "new_paths": rng.random() < 0.5})
+        first = rng.randint(1, len(rows) - 1)
+        updates = [first, len(rows)]
+        if len(rows) - first >= 2 and rng.random() < 0.4:
+            updates = [first, rng.randint(first + 1, len(rows) - 1), len(rows)]
+        # a fit updates without committing; a resumed / re-scraped fit has commits in between
+        commits = [rng.random() < 0.5 for _ in updates[1:]] if rng.random() < 0.6 else [False] * (len(updates) - 1)
+        cases.append({"kind": "dbseq", "tree": tree, "npri": npri, "rows": rows, "first": first,
+                      "updates": updates, "commits": commits, "new_paths": rng.random() < 0.5})
+    names = ["samples_summary", "samples_info", "info", "search", "model"]
+    for _ in range(12 if not thorough else 80):
+        ops = []
+        for _ in range(rng.randint(2, 9)):
+            r = rng.random()
+            if r < 0.65:
+                ops.append({"op": "set", "name": rng.choice(names[:rng.randint(1, 4)]), "tok": rng.randint(0, 999)})
+            else:
+                ops.append({"op": rng.choice(["commit", "expire", "requery"])})
+        cases.append({"kind": "jsonhist", "ops": ops, "names": names})
     for _ in range(6 if not thorough else 36):
         tree, npri = g.tree()
         cases.append({"kind": "fit", "tree": tree, "npri": npri, "kinds": [rng.choice("ug")],
@@ -583,12 +604,46 @@ def oracle_samples(c, r):
 
 
 def oracle_dbseq(c, r):
-    m = compare_view(r["orig"], r["db_all"], "db after a second save")
-    if not m:
-        return []
-    if compare_view(r["first"], r["db_all"], "first") is None:
-        return [("db", "stale-first", "db after a second save: the samples of the FIRST save are returned (%s)" % m[1][:200])]
-    return [("db", m[0], m[1])]
+    fails = []
+    m = compare_view(r["orig"], r["db_all"], "db after the last update")
+    if m:
+        if compare_view(r["first"], r["db_all"], "first") is None:
+            fails.append(("db", "stale-first", "db after the last update: the samples in place at the first commit are returned, not the last (%s)" % m[1][:200]))
+        else:
+            fails.append(("db", m[0], m[1]))
+    # the json rows: whatever happened in between, the LAST save is what a reader gets
+    info = r.get("info_json", {})
+    if "ok" not in info:
+        fails.append(("db_json", exc_part(r, "info_json"), "samples_info json: %s" % exc_of(r, "info_json")))
+    elif info["ok"] != r["info_expected"]:
+        fails.append(("db_json", "values", "samples_info json is %s after the last update saved %s" % (info["ok"], r["info_expected"])))
+    rows = ok(r, "json_rows")
+    if rows is not None and len(rows) != len(set(rows)):
+        fails.append(("db_json", "values", "several json rows with one name: %s" % rows))
+    if "exc" in r.get("summary_save", {}):
+        fails.append(("db_summary", exc_part(r, "summary_save"), "save_samples_summary raised %s" % exc_of(r, "summary_save")))
+    if "summary_orig" in r:
+        for route in ("db_summary", "fit_summary"):
+            for part, msg in compare_summary(r["summary_orig"], r[route], route + " after the last update"):
+                fails.append((route, part, msg))
+        # and the summary agrees with the samples persisted last
+        k = first_argmax([unhex(x["ll"]) for x in c["rows"]])
+        if "load" not in r["db_summary"] and ok(r["db_summary"], "vmax") != [hx(unhex(x)) for x in c["rows"][k]["p"]]:
+            fails.append(("db_summary", "samples", "reloaded summary's best fit %s is not the best of the samples saved last %s" % (
+                ok(r["db_summary"], "vmax"), c["rows"][k]["p"])))
+    return fails
+
+
+def oracle_jsonhist(c, r):
+    last, count = {}, {}
+    for op in c["ops"]:
+        if op["op"] == "set":
+            last[op["name"]] = op["tok"]
+            count[op["name"]] = 1
+    exp = [[n, last.get(n), count.get(n, 0)] for n in c["names"]]
+    if r["obs"] != exp:
+        return [("db_json", "values", "get_json / rows per name %s, expected (last save wins, one row per name) %s" % (r["obs"], exp))]
+    return []
 
 
 def oracle_fit(c, r):
@@ -683,6 +738,11 @@ def relabel(tree, ws):
 def coq_cases(c, r):
     """list of (route, coq term)"""
     out = []
+    if c["kind"] == "jsonhist":
+        h = clist(["(%s, %s)" % (cstr(op["name"]), cnat(op["tok"])) for op in c["ops"] if op["op"] == "set"])
+        obs = clist(["(%s, %s, %s)" % (cstr(n), "None" if tok is None else ("(Some %s)" % cnat(tok) if 0 <= tok < 5000 else "(Some 4999%nat)"),
+                                          cnat(cnt)) for n, tok, cnt in r["obs"]])
+        return [("db_json", "CJsonHist %s %s" % (h, obs))]
     t = "(%s)" % cnode(c["tree"])
     if c["kind"] != "samples":
         return out
@@ -759,6 +819,9 @@ def coq_cases(c, r):
 
 
 def nontrivial(c):
+    if c["kind"] == "jsonhist":
+        names = [op["name"] for op in c["ops"] if op["op"] == "set"]
+        return len(names) > len(set(names))          # some name saved more than once
     labels = shape_labels(c)
     n = c["npri"]
     rows = c.get("rows", [1, 2])
@@ -835,7 +898,7 @@ def run(ctx):
         ctx.count_case(key, nontrivial(c), c["kind"])
         for lb in labels:
             ctx.hist("shape", lb)
-        ctx.hist("parameters", c["npri"])
+        ctx.hist("parameters", c.get("npri", 0))
         ctx.hist("samples", len(c.get("rows", [])))
         ctx.oracle["cases"] += 1
         if "exc" in r:
@@ -843,7 +906,7 @@ def run(ctx):
             ctx.failure("oracle", "driver raised %s: %s" % (r["exc"], r.get("msg")), c, classes=[], impl=r)
             continue
         r = r["ok"]
-        fails = {"samples": oracle_samples, "dbseq": oracle_dbseq, "fit": oracle_fit}[c["kind"]](c, r)
+        fails = {"samples": oracle_samples, "dbseq": oracle_dbseq, "fit": oracle_fit, "jsonhist": oracle_jsonhist}[c["kind"]](c, r)
         seen = set()
         for route, part, msg in fails:
             cl = failure_classes(c, route, part or "", msg)
@@ -857,7 +920,7 @@ def run(ctx):
             terms.append(term)
             term_src.append((c, route, bool(fails)))
         if c["idx"] % 29 == 0:
-            ctx.sample({"kind": c["kind"], "tree": c["tree"], "rows": c.get("rows", [])[:2]}, limit=6)
+            ctx.sample({"kind": c["kind"], "tree": c.get("tree"), "rows": c.get("rows", [])[:2], "ops": c.get("ops")}, limit=6)
     if os.path.exists(os.path.join(common.COQ, "C09", "Model.vo")):
         hdr = ctx.header(["Common.PyFloat", "Model"])
         bad, log = ctx.eval_cases(hdr, "case", "check_case", terms, shard=120)
